@@ -568,7 +568,9 @@ class HTMLBinaryInputStream(HTMLUnicodeInputStream):
         assert isinstance(string, bytes)
 
         # Try detecting the BOM using bytes from the string
-        encoding = bomDict.get(string[:3])         # UTF-8
+        encoding = None
+        if len(string) >= 3:
+            encoding = bomDict.get(string[:3])     # UTF-8
         seek = 3
         if not encoding:
             # Need to detect UTF-32 before UTF-16
